@@ -7,7 +7,7 @@ import Continuum.Lemmas.UowInv
 * `Mgr.get` / `Mgr.set` are association-list lookup / update;
 * `register`, `sweepClosed` (with no closed connection) and updates of `scm` do not change `get`;
 * a normal form of `mgrStep` under the invariant `MInv` (no closed connection; a unit of work is
-  only held by a registered connection) and `MGood` (session ↔ connection is a bijection on the
+  only held, or remembered by an open savepoint, by a registered connection) and `MGood` (session ↔ connection is a bijection on the
   registered pairs and the events still to come; no `close` event);
 * the generalised projection and quiescence statements, by induction over the event list from an
   arbitrary manager state satisfying the invariant.
@@ -156,19 +156,99 @@ theorem step_end_with_uow (cfg : Cfg) (s : St) (e : Ev) (h : e.isEnd = true) (hs
   rw [hs]
   cases e <;> simp [Ev.isEnd] at h <;> rfl
 
-theorem step_sp_uow (cfg : Cfg) (s : St) (e : Ev) (h1 : e.isEnd = false) (h2 : e.needsUow = false) :
+/- OLD STATEMENT (false since a savepoint rollback restores the unit of work remembered at
+SAVEPOINT):
+
+    theorem step_sp_uow (cfg : Cfg) (s : St) (e : Ev) (h1 : e.isEnd = false) (h2 : e.needsUow = false) :
+        (step cfg s e).uow = s.uow
+
+Counterexample: `e := .spRollback` and `s := { uow := some { vobjs := [(0, [1], 1)] }, sps := [({}, none)] }`:
+the step drops the unit of work (`none ≠ some _`).  Corrected: the savepoint rollback is excluded
+here and described by `step_spRollback_uow` below. -/
+theorem step_sp_uow_corrected (cfg : Cfg) (s : St) (e : Ev) (h1 : e.isEnd = false)
+    (h2 : e.needsUow = false) (h3 : e ≠ .spRollback) :
     (step cfg s e).uow = s.uow := by
-  cases e <;> simp [Ev.isEnd, Ev.needsUow] at h1 h2
+  cases e <;> simp [Ev.isEnd, Ev.needsUow] at h1 h2 h3
   · rfl
   · rfl
-  · simp only [step]; split <;> rfl
+
+/-- a unit of work that exists after a savepoint rollback existed before it or was remembered by an
+open savepoint -/
+theorem step_spRollback_uow (cfg : Cfg) (s : St) (h : (step cfg s .spRollback).uow.isSome = true) :
+    s.uow.isSome = true ∨ ∃ q ∈ s.sps, q.2.isSome = true := by
+  simp only [step] at h
+  split at h
+  · exact Or.inl h
+  · rename_i snap u rest heq
+    right
+    refine ⟨(snap, u), by rw [heq]; exact List.mem_cons_self, ?_⟩
+    cases u with
+    | none => cases h
+    | some _ => rfl
+
+theorem step_end_sps (cfg : Cfg) (s : St) (e : Ev) (h : e.isEnd = true) :
+    (step cfg s e).sps = [] := by
+  cases e <;> simp [Ev.isEnd] at h <;> rfl
+
+/-- what an event that does not end the transaction leaves on the savepoint stack was there before,
+or is the memory of the savepoint it opens -/
+theorem step_sps_mem (cfg : Cfg) (s : St) (e : Ev) (he : e.isEnd = false) :
+    ∀ q ∈ (step cfg s e).sps, q ∈ s.sps ∨ q = (s.db, s.uow) := by
+  intro q hq
+  cases e with
+  | commit => simp [Ev.isEnd] at he
+  | rollback => simp [Ev.isEnd] at he
+  | spBegin =>
+    rcases List.mem_cons.1 hq with rfl | h
+    · exact Or.inr rfl
+    · exact Or.inl h
+  | spCommit => exact Or.inl (List.mem_of_mem_tail hq)
+  | spRollback =>
+    simp only [step] at hq
+    split at hq
+    · exact Or.inl hq
+    · rename_i heq
+      left; rw [heq]; exact List.mem_cons_of_mem _ hq
+  | manualTx n => exact Or.inl hq
+  | beforeFlush objs n pm =>
+    left
+    simp only [step, createTx] at hq
+    split at hq
+    · exact hq
+    · split at hq <;> exact hq
+  | ins c pk vals ch =>
+    left
+    simp only [step] at hq
+    split at hq <;> exact hq
+  | upd c pk vals cc rc kc kr =>
+    left
+    simp only [step] at hq
+    split at hq
+    · exact hq
+    · split at hq
+      · exact hq
+      · split at hq <;> exact hq
+  | del c pk vals =>
+    left
+    simp only [step] at hq
+    split at hq <;> exact hq
+  | assoc t op links =>
+    left
+    simp only [step] at hq
+    split at hq <;> exact hq
+  | afterFlush =>
+    left
+    simp only [step] at hq
+    split at hq <;> exact hq
 
 /-! ## invariants -/
 
-/-- no closed connection, and a unit of work is only held by a registered connection -/
+/-- no closed connection, and a unit of work is only held — or remembered by an open savepoint —
+by a registered connection -/
 structure MInv (m : Mgr) : Prop where
   closed : m.closed = []
   reg : ∀ p ∈ m.conns, p.2.uow.isSome = true → ∃ s, (s, p.1) ∈ m.scm
+  spreg : ∀ p ∈ m.conns, (∃ q ∈ p.2.sps, q.2.isSome = true) → ∃ s, (s, p.1) ∈ m.scm
 
 /-- session ↔ connection is a bijection on the registered pairs and the events to come;
 no `close` event to come -/
@@ -177,7 +257,7 @@ structure MGood (scm : List (Nat × Nat)) (evs : List MEv) : Prop where
   pair : ∀ s c e s' c' e', MEv.ev s c e ∈ evs → MEv.ev s' c' e' ∈ evs → (s = s' ↔ c = c')
   reg : ∀ p ∈ scm, ∀ s c e, MEv.ev s c e ∈ evs → (p.1 = s ↔ p.2 = c)
 
-theorem MInv.init : MInv {} := ⟨rfl, by intro p hp; cases hp⟩
+theorem MInv.init : MInv {} := ⟨rfl, (by intro p hp; cases hp), (by intro p hp; cases hp)⟩
 
 theorem MGood.of_ownConn {evs : List MEv} (h : OwnConn evs) : MGood [] evs := by
   refine ⟨?_, ?_, ?_⟩
@@ -192,6 +272,12 @@ theorem MInv.get_reg {m : Mgr} (hm : MInv m) {c : Nat} (h : (m.get c).uow.isSome
   rcases m.get_mem_or c with h0 | h0
   · rw [h0] at h; cases h
   · exact hm.reg _ h0 h
+
+theorem MInv.get_spreg {m : Mgr} (hm : MInv m) {c : Nat} (h : ∃ q ∈ (m.get c).sps, q.2.isSome = true) :
+    ∃ s, (s, c) ∈ m.scm := by
+  rcases m.get_mem_or c with h0 | h0
+  · rw [h0] at h; obtain ⟨q, hq, _⟩ := h; cases hq
+  · exact hm.spreg _ h0 h
 
 def MEv.on (c : Nat) : MEv → Option Ev
   | .ev _ c' e => if c' = c then some e else none
@@ -258,11 +344,12 @@ theorem step_nf (cfg : Cfg) (m : Mgr) (a : MEv) (rest : List MEv) (hm : MInv m)
         (p.2 = conn ∧ ∀ s c ev, MEv.ev s c ev ∈ rest → (p.1 = s ↔ p.2 = c))) ∧
       (e.isEnd = true → ∀ p ∈ scm', p.2 ≠ conn) ∧
       (∀ p ∈ m.scm, p.2 ≠ conn → p ∈ scm') ∧
-      ((step cfg (m.get conn) e).uow.isSome = true → ∃ s, (s, conn) ∈ scm') := by
+      ((step cfg (m.get conn) e).uow.isSome = true → ∃ s, (s, conn) ∈ scm') ∧
+      ((∃ q ∈ (step cfg (m.get conn) e).sps, q.2.isSome = true) → ∃ s, (s, conn) ∈ scm') := by
   cases a with
   | close c => exact absurd (List.mem_cons_self) (hg.noClose c)
   | engineRollback conn =>
-    refine ⟨conn, .rollback, m.scm.filter (fun q => q.2 ≠ conn), ?_, ?_, ?_, ?_, ?_, ?_⟩
+    refine ⟨conn, .rollback, m.scm.filter (fun q => q.2 ≠ conn), ?_, ?_, ?_, ?_, ?_, ?_, ?_⟩
     · intro c; rfl
     · simp only [mgrStep]
       rw [Mgr.sweepClosed_nil]
@@ -272,11 +359,12 @@ theorem step_nf (cfg : Cfg) (m : Mgr) (a : MEv) (rest : List MEv) (hm : MInv m)
     · intro _ p hp; simpa using (List.mem_filter.1 hp).2
     · intro p hp hne; exact List.mem_filter.2 ⟨hp, by simpa using hne⟩
     · intro h; rw [step_end_uow cfg _ _ rfl] at h; cases h
+    · intro h; rw [step_end_sps cfg _ _ rfl] at h; obtain ⟨q, hq, _⟩ := h; cases hq
   | ev sess conn e =>
     have hself : ∀ p ∈ m.scm, (p.1 = sess ↔ p.2 = conn) :=
       fun p hp => hg.reg p hp sess conn e List.mem_cons_self
     by_cases he : e.isEnd = true
-    · refine ⟨conn, e, m.scm.filter (fun q => q.1 ≠ sess), ?_, ?_, ?_, ?_, ?_, ?_⟩
+    · refine ⟨conn, e, m.scm.filter (fun q => q.1 ≠ sess), ?_, ?_, ?_, ?_, ?_, ?_, ?_⟩
       · intro c; rfl
       · exact mgrStep_end cfg m sess conn e he hm hself
       · intro p hp; left; exact (List.mem_filter.1 hp).1
@@ -288,6 +376,7 @@ theorem step_nf (cfg : Cfg) (m : Mgr) (a : MEv) (rest : List MEv) (hm : MInv m)
         have : ¬ p.1 = sess := fun h => hne ((hself p hp).1 h)
         simpa using this
       · intro h; rw [step_end_uow cfg _ _ he] at h; cases h
+      · intro h; rw [step_end_sps cfg _ _ he] at h; obtain ⟨q, hq, _⟩ := h; cases hq
     · have he' : e.isEnd = false := by simpa using he
       have hstep : mgrStep cfg m (.ev sess conn e) =
           (if e.needsUow then m.register sess conn else m).set conn
@@ -306,7 +395,20 @@ theorem step_nf (cfg : Cfg) (m : Mgr) (a : MEv) (rest : List MEv) (hm : MInv m)
         split
         · exact Mgr.register_closed _ _ _
         · rfl
-      refine ⟨conn, e, (if e.needsUow then m.register sess conn else m).scm, ?_, ?_, ?_, ?_, ?_, ?_⟩
+      have hsub : ∀ p ∈ m.scm, p ∈ (if e.needsUow then m.register sess conn else m).scm := by
+        intro p hp
+        by_cases hn : e.needsUow = true
+        · simp only [hn, if_true]
+          unfold Mgr.register
+          split
+          · exact hp
+          · exact List.mem_append_left _ hp
+        · simp only [hn]
+          exact hp
+      have hkeep : (∃ s, (s, conn) ∈ m.scm) →
+          ∃ s, (s, conn) ∈ (if e.needsUow then m.register sess conn else m).scm :=
+        fun ⟨s, hs⟩ => ⟨s, hsub _ hs⟩
+      refine ⟨conn, e, (if e.needsUow then m.register sess conn else m).scm, ?_, ?_, ?_, ?_, ?_, ?_, ?_⟩
       · intro c; rfl
       · rw [hstep]
         generalize (if e.needsUow then m.register sess conn else m) = m1 at hconns hclosed ⊢
@@ -351,9 +453,19 @@ theorem step_nf (cfg : Cfg) (m : Mgr) (a : MEv) (rest : List MEv) (hm : MInv m)
             exact ⟨p.1, by rw [← hpc]; exact hp⟩
           · exact ⟨sess, List.mem_append_right _ (by simp)⟩
         · have hn' : e.needsUow = false := by simpa using hn
-          simp only [hn]
-          rw [step_sp_uow cfg _ e he' hn'] at hu
-          exact hm.get_reg hu
+          by_cases hsp : e = .spRollback
+          · subst hsp
+            rcases step_spRollback_uow cfg _ hu with h | h
+            · exact hkeep (hm.get_reg h)
+            · exact hkeep (hm.get_spreg h)
+          · simp only [hn]
+            rw [step_sp_uow_corrected cfg _ e he' hn' hsp] at hu
+            exact hm.get_reg hu
+      · rintro ⟨q, hq, hsome⟩
+        rcases step_sps_mem cfg _ e he' q hq with h | h
+        · exact hkeep (hm.get_spreg ⟨q, h, hsome⟩)
+        · subst h
+          exact hkeep (hm.get_reg hsome)
 
 def Reg (m : Mgr) (c : Nat) : Prop := ∃ s, (s, c) ∈ m.scm
 
@@ -364,13 +476,18 @@ theorem step_facts (cfg : Cfg) (m : Mgr) (a : MEv) (rest : List MEv) (hm : MInv 
     (∀ c, (mgrStep cfg m a).get c = run cfg (m.get c) (a.on c).toList) ∧
     (∀ c e, a.on c = some e → e.isEnd = true → ¬ Reg (mgrStep cfg m a) c) ∧
     (∀ c, a.on c = none → Reg (mgrStep cfg m a) c → Reg m c) := by
-  obtain ⟨conn, e, scm', hon, hstep, h1, h2, h3, h4⟩ := step_nf cfg m a rest hm hg
+  obtain ⟨conn, e, scm', hon, hstep, h1, h2, h3, h4, h4'⟩ := step_nf cfg m a rest hm hg
   rw [hstep]
-  refine ⟨⟨hm.closed, ?_⟩, ⟨?_, ?_, ?_⟩, ?_, ?_, ?_⟩
+  refine ⟨⟨hm.closed, ?_, ?_⟩, ⟨?_, ?_, ?_⟩, ?_, ?_, ?_⟩
   · intro p hp hu
     rcases Mgr.mem_set_conns (m := m) hp with rfl | ⟨hp, hne⟩
     · exact h4 hu
     · obtain ⟨s, hs⟩ := hm.reg p hp hu
+      exact ⟨s, h3 _ hs hne⟩
+  · intro p hp hu
+    rcases Mgr.mem_set_conns (m := m) hp with rfl | ⟨hp, hne⟩
+    · exact h4' hu
+    · obtain ⟨s, hs⟩ := hm.spreg p hp hu
       exact ⟨s, h3 _ hs hne⟩
   · intro c hc; exact hg.noClose c (List.mem_cons_of_mem _ hc)
   · intro s c e s' c' e' ha hb
